@@ -85,6 +85,12 @@ func init() {
 				for len(p.Labels) < nl {
 					p.Labels[c16Keys[r.IntN(len(c16Keys))]] = c16Vals[r.IntN(len(c16Vals))]
 				}
+				if i%6 == 3 {
+					// dozens of static labels (one per deployment attribute): every size from 9 to 40 turns up over the seeds
+					for want := 9 + r.IntN(32); len(p.Labels) < want; {
+						p.Labels[fmt.Sprintf("attr_%02d", r.IntN(60))] = fmt.Sprintf("value-%d", len(p.Labels))
+					}
+				}
 				if i%5 == 1 {
 					// values sorting opposite to keys
 					ks := engine.SortedKeys(p.Labels)
